@@ -84,9 +84,25 @@ def pkg_variant(k):
     return bc
 
 
+def pkg_shuffled(k):
+    """the packaged configuration, same content, other key order: k = 0 string-sorted keys (json.dump(sort_keys=True)),
+    k = 1 descending, k = 2 a low element moved to the end"""
+    bc = PKG['bit_config']
+    keys = list(bc)
+    if k == 0:
+        keys = sorted(keys)
+    elif k == 1:
+        keys = sorted(keys, key=int, reverse=True)
+    else:
+        keys = [x for x in keys if x not in ('3', '48')] + ['48', '3']
+    return {x: bc[x] for x in keys}
+
+
 def get_config(spec):
     if spec[0] == 'pkg':
         return PKG['bit_config']
+    if spec[0] == 'pkgshuf':
+        return pkg_shuffled(spec[1])
     if spec[0] == 'pkgvar':
         return pkg_variant(spec[1])
     if spec[0] == 'gen':
